@@ -478,6 +478,14 @@ func (e *Engine) havocLoc(st *State, pctx *evalCtx, ex Expr) {
 			e.havocStream(st, s, id.Name == "wstream")
 			return
 		}
+		if id, ok := call.Fun.(*EIdent); ok && id.Name == "bstream" {
+			s := e.resolveAlias(st, streamRef(e.eval(pctx, call.Args[0])))
+			np := FreshVar("bpos", Ref64)
+			st.assume(Ule(bsPos(st, s), np))
+			st.assume(Ule(np, bsEnd(st, s)))
+			st.storeLeaf("bs|pos", []*Term{s}, np)
+			return
+		}
 		if id, ok := call.Fun.(*EIdent); ok && id.Name == "mapof" {
 			m := e.eval(pctx, call.Args[0])
 			root := mapRoot(m.T)
@@ -549,7 +557,7 @@ func (e *Engine) checkAssigns(st *State, pi *PtrInfo, T types.Type, in ssa.Instr
 	for _, cl := range cls {
 		for _, ex := range cl.Exprs {
 			if call, ok := ex.(*ECall); ok {
-				if id, ok := call.Fun.(*EIdent); ok && (id.Name == "wstream" || id.Name == "rstream") {
+				if id, ok := call.Fun.(*EIdent); ok && (id.Name == "wstream" || id.Name == "rstream" || id.Name == "bstream") {
 					continue
 				}
 				if id, ok := call.Fun.(*EIdent); ok && id.Name == "elems" {
@@ -768,7 +776,7 @@ func (e *Engine) havocStream(st *State, s *Term, writer bool) {
 func isRegionCall(c *ECall) bool {
 	if id, ok := c.Fun.(*EIdent); ok {
 		switch id.Name {
-		case "wstream", "rstream", "elems", "mapof":
+		case "wstream", "rstream", "elems", "mapof", "bstream":
 			return true
 		}
 	}
